@@ -21,7 +21,7 @@ ASSUMPTIONS = [
     'references carry two resolutions; unconverged cases are counted as inconclusive cases',
 ]
 REQUIRED = {t: ['domain:UnitSquare', 'domain:PiSquare', 'domain:LShape', 'datum:one', 'datum:sine', 'time:starts-at-0', 'time:later', 'time:early-small', 'time:deep-near-zero',
-                'level>=4', 'rel:linearity', 'rel:additivity-time', 'rel:additivity-space', 'rel:direct-reference', 'fn:evaluate', 'fn:linform_vector', 'fn:linform_vector:pool-history',
+                'level>=4', 'rel:linearity', 'rel:additivity-time', 'rel:additivity-space', 'rel:direct-reference', 'fn:evaluate', 'fn:linform_vector', 'fn:linform_vector:pool-history', 'fn:linform_vector:corner-sharing-history',
                 'piece:long-side-half']
             for t in ('quick', 'thorough')}
 TIMEOUT = {'quick': 1500, 'thorough': 7200}
@@ -377,6 +377,24 @@ def run_rel(spec, acc):
             if len(vec) != len(order) or any(float(v) != single[id(e)] for v, e in zip(vec, order)):
                 acc.violation('load-vector-entry-mismatch', '%s: linform_vector on the %s list does not return the load of element i at position i' % (domain, oname),
                               {'domain': domain, 'order': oname})
+        # one operator, successive calls with DIFFERENT elements that share their lower-left corner (an element, its first children,
+        # an anisotropic alternative, the element again): whatever the operator remembers between calls must not be keyed by less than the element
+        b0 = leaves[rng.randrange(len(leaves))]
+        (ta, tb), (xa, xb) = b0.time_interval, b0.space_interval
+        tm_, xm_ = (ta + tb) / 2, (xa + xb) / 2
+        seq = [('element', (ta, tb), (xa, xb)), ('first-time-half', (ta, tm_), (xa, xb)), ('first-space-half', (ta, tb), (xa, xm_)),
+               ('first-quarter', (ta, tm_), (xa, xm_)), ('element-again', (ta, tb), (xa, xb)), ('first-eighth', (ta, (ta + tm_) / 2), (xa, xm_))]
+        op_h = InitialOperator(bmesh, fams['quad'], initial_mesh=factory)
+        for sname, tiv_, xiv_ in seq:
+            el_ = dummy(gamma, geo, tiv_, xiv_)
+            want_ = InitialOperator(bmesh, fams['quad'], initial_mesh=factory).linform(dummy(gamma, geo, tiv_, xiv_))[0]
+            got_ = op_h.linform_vector([el_], use_mp=False)
+            acc.case('%s|vector-corner-history|%s' % (domain, sname), None)
+            acc.seen('fn:linform_vector:corner-sharing-history')
+            if len(got_) != 1 or float(got_[0]) != want_:
+                acc.violation('load-vector-entry-mismatch:corner-sharing-history:' + sname,
+                              '%s: linform_vector on one operator, call "%s" of a sequence of elements sharing the corner (%r, %r): %r, single call on a fresh operator %r'
+                              % (domain, sname, ta, xa, float(got_[0]) if len(got_) else None, want_), {'domain': domain, 'call': sname, 'sequence': [q[0] for q in seq]})
         # the pool path, as a history of DIFFERENT calls in one process: other lists, another operator (other datum), shorter and longer
         # lists, with and without a cache directory; every entry bit-identical to the single-element call
         import multiprocessing
